@@ -46,6 +46,9 @@ type Ctx struct {
 	Deadline    time.Time
 	// StopOnViolation makes Explore/BFS stop soon after the first unlisted violation.
 	StopOnViolation bool
+	// TolerateDivergence turns a replay divergence inside Explore into a reported cap
+	// instead of a harness error.
+	TolerateDivergence bool
 
 	ReplayPath string
 	ReplayData json.RawMessage
